@@ -92,6 +92,16 @@ def run(chk, replay=None):
             chk.violation({"class": "literal-model", "what": "%s impl=%s model=%s" % (ln[:100], x[:60], y[:60])},
                           {"cmd": "literal", "line": ln, "implementation": x, "model": y,
                            "broken": "correspondence: value.rs / num.rs literal conversion vs Text/Literal.v, Text/U256.v (theorems C11_*)"})
+    # byte-array lengths that do not fit twice into the machine word: no hex string has that many digits, so the answer is Err
+    # (C11_hex_bytes: Ok exactly when the digit count is 2n; the unary model cannot be run at these n)
+    big = ["(hexb %d %s)" % (n, quote(h)) for n in (1 << 63, (1 << 63) + 1, (1 << 63) + 2, (1 << 64) - 1) for h in ("", "01", "0102", "010203", "01020304")]
+    for ln, x in zip(big, impl("literal", big)):
+        chk.case(ln, sample={"case": ln, "implementation": x[:60]})
+        chk.count("api.hexb-wrap.%s" % x.split(" ")[0][:5])
+        if x != "err":
+            chk.violation({"class": "literal-value", "what": "%s -> %s" % (ln, x[:80])},
+                          {"cmd": "literal", "line": ln, "implementation": x, "expected": "err",
+                           "broken": "a hex literal is accepted (or the library panics) at a byte-array type whose length differs from its digit count / 2"})
     # gate D (no model): printed integers parse back, through the library's own parser
     disp = [(ln, x) for ln, x in zip(lines, a) if ln.startswith("(disp ")]
     back = []
